@@ -492,36 +492,7 @@ func runC14(c *Ctx) {
 						return
 					}
 					nPaths++
-					okPath := false
-					for _, a := range atoms {
-						switch a.Kind {
-						case "eq":
-							// b[0] == 0 decided false (or != 0 decided true)
-							if a.Y == nil || a.Truth {
-								continue
-							}
-							for _, pair := range [][2]ssa.Value{{a.X, a.Y}, {a.Y, a.X}} {
-								if n, isC := constInt(pair[1]); isC && n == 0 {
-									if ld, isLd := stripConv(pair[0]).(*ssa.UnOp); isLd && ld.Op == token.MUL {
-										if ia, isIA := ld.X.(*ssa.IndexAddr); isIA && fromSrc(ia.X) {
-											if k, isK := constInt(ia.Index); isK && k == 0 {
-												okPath = true
-											}
-										}
-									}
-								}
-							}
-						case "cmp":
-							// len(b) > 0 decided false: no bytes
-							if cc, isCall := stripConv(a.X).(*ssa.Call); isCall {
-								if bi, isB := cc.Call.Value.(*ssa.Builtin); isB && bi.Name() == "len" && fromSrc(cc.Call.Args[0]) {
-									if n, isC := constInt(a.Y); isC && ((a.Op == token.GTR && n == 0 && !a.Truth) || (a.Op == token.GEQ && n == 1 && !a.Truth) || (a.Op == token.LSS && n == 1 && a.Truth) || (a.Op == token.LEQ && n == 0 && a.Truth)) {
-										okPath = true
-									}
-								}
-							}
-						}
-					}
+					okPath := canonEvidence(atoms, fromSrc, 0)
 					if !okPath {
 						bad++
 					}
@@ -1278,4 +1249,99 @@ func c14Variants() []Variant {
 		{Name: "map-order-encoding", File: "staking/evidence.go", Old: "	sort.Slice(hashes, func(i, j int) bool { return bytes.Compare(hashes[i][:], hashes[j][:]) < 0 })\n", New: "	_ = sort.Slice\n	_ = bytes.Compare\n", Rule: "C14.E3", Construct: "EvidenceDoubleSign"},
 		{Name: "alloc-before-kind", File: "rlp/decode.go", Old: "func (s *Stream) Bytes() ([]byte, error) {\n	kind, size, err := s.Kind()\n	if err != nil {\n		return nil, err\n	}", New: "func (s *Stream) Bytes() ([]byte, error) {\n	kind, size, err := s.Kind()\n	pre := make([]byte, size)\n	_ = pre\n	if err != nil {\n		return nil, err\n	}", Rule: "C14.E5", Construct: "Bytes"},
 	}
+}
+
+// canonEvidence: the path conditions establish that the bytes read from the
+// stream are empty or start with a non-zero byte. A condition moved into a
+// small boolean helper counts when every way the helper has of giving the
+// observed answer establishes it too.
+func canonEvidence(atoms []Atom, fromSrc func(ssa.Value) bool, depth int) bool {
+	okPath := false
+	for _, a := range atoms {
+		switch a.Kind {
+		case "eq":
+			// b[0] == 0 decided false (or != 0 decided true)
+			if a.Y == nil || a.Truth {
+				continue
+			}
+			for _, pair := range [][2]ssa.Value{{a.X, a.Y}, {a.Y, a.X}} {
+				if n, isC := constInt(pair[1]); isC && n == 0 {
+					if ld, isLd := stripConv(pair[0]).(*ssa.UnOp); isLd && ld.Op == token.MUL {
+						if ia, isIA := ld.X.(*ssa.IndexAddr); isIA && fromSrc(ia.X) {
+							if k, isK := constInt(ia.Index); isK && k == 0 {
+								okPath = true
+							}
+						}
+					}
+				}
+			}
+		case "cmp":
+			// len(b) > 0 decided false: no bytes
+			if cc, isCall := stripConv(a.X).(*ssa.Call); isCall {
+				if bi, isB := cc.Call.Value.(*ssa.Builtin); isB && bi.Name() == "len" && fromSrc(cc.Call.Args[0]) {
+					if n, isC := constInt(a.Y); isC && ((a.Op == token.GTR && n == 0 && !a.Truth) || (a.Op == token.GEQ && n == 1 && !a.Truth) || (a.Op == token.LSS && n == 1 && a.Truth) || (a.Op == token.LEQ && n == 0 && a.Truth)) {
+						okPath = true
+					}
+				}
+			}
+		}
+	}
+	if okPath || depth > 1 {
+		return okPath
+	}
+	for _, a := range atoms {
+		if a.Kind != "true" {
+			continue
+		}
+		call, ok := stripConv(a.X).(*ssa.Call)
+		if !ok {
+			continue
+		}
+		g := call.Call.StaticCallee()
+		if !isSmallHelper(g) || g.Signature.Results().Len() != 1 || !isBoolType(g.Signature.Results().At(0).Type()) {
+			continue
+		}
+		uses := false
+		for _, arg := range call.Call.Args {
+			if fromSrc(arg) {
+				uses = true
+			}
+		}
+		if !uses {
+			continue
+		}
+		enterHelper(call)
+		inHelper := func(v ssa.Value) bool {
+			return derivesFrom(v, func(x ssa.Value) bool {
+				p, isP := x.(*ssa.Parameter)
+				if !isP || p.Parent() != g {
+					return false
+				}
+				if b, has := paramBind[p]; has {
+					return fromSrc(b)
+				}
+				return false
+			})
+		}
+		nWays, bad := 0, 0
+		okEnum := enumPaths(g, 256, func(pr PathResult) {
+			rv := pr.Resolve(pr.Ret.Results[0])
+			facts := pr.Facts
+			if cv, isC := rv.(*ssa.Const); isC && cv.Value != nil && cv.Value.Kind() == constant.Bool {
+				if constant.BoolVal(cv.Value) != a.Truth {
+					return
+				}
+			} else {
+				facts = append(append([]Fact(nil), facts...), Fact{Cond: rv, Truth: a.Truth})
+			}
+			nWays++
+			if !canonEvidence(atomsOf(facts), inHelper, depth+1) {
+				bad++
+			}
+		})
+		if okEnum && nWays > 0 && bad == 0 {
+			return true
+		}
+	}
+	return false
 }
